@@ -1046,7 +1046,7 @@ fn main() {
             cx.note(format!("laws: {} has no accepted honest run in this tier, skipped", c.key()));
         }
         }
-        // Poseidon (no lookups): seed moves on free cells with a long chain of affine repairs follow the
+        // Poseidon (no lookups): seed moves on free cells with a chain of affine repairs in cell order follow the
         // chain of skipped-round cells of a partial-round batch
         {
             let mut rng = vcore::rng_for(seed, "c07-laws-poseidon");
@@ -1056,7 +1056,7 @@ fn main() {
             };
             // (the whole permutation is one region: an alternative re-derives every later cell, so
             // the repair chain is long; two candidates per step, eight states per depth)
-            let pcfg = vgad::laws::Cfg { max_rows: 1, max_repairs: 40, seed_free_cells: true, max_real_runs: 16, repair_branch: 2, repair_beam: 8, forward_repairs_only: true, ..Default::default() };
+            let pcfg = vgad::laws::Cfg { max_rows: 1, max_repairs: 200, seed_free_cells: true, max_real_runs: 16, repair_branch: 2, repair_beam: 8, forward_repairs_only: true, repair_in_cell_order: true, instance_pins: false, ..Default::default() };
             let mut pjobs: Vec<(String, (ZCase, u32, Vec<u32>))> = vec![];
             if let Ok(k) = vcore::in_pool(1, || vgad::min_k(&c)) {
                 if let Some(regs) = vcore::in_pool(1, || vgad::laws::regions_of(&c, k)) {
